@@ -399,6 +399,32 @@ func genSkel(t *rapid.T, l string, lo, hi int, depthNot int) *Skel {
 func genC12(t *rapid.T) c12Case {
 	n := rapid.IntRange(2, 8).Draw(t, "atoms")
 	c := c12Case{Skel: genSkel(t, "s", 0, n, 0)}
+	if rapid.IntRange(0, 9).Draw(t, "mirror") < 2 {
+		// two different groupings / connective choices over the same atoms in the same order, joined by a connective
+		k := rapid.IntRange(2, 4).Draw(t, "mirrorAtoms")
+		left := genSkel(t, "ml", 0, k, 0)
+		right := genSkel(t, "mr", 0, k, 0)
+		op := "and"
+		if rapid.Bool().Draw(t, "mirrorOr") {
+			op = "or"
+		}
+		c.Skel = &Skel{Op: op, Kids: []*Skel{left, right}}
+	} else if rapid.IntRange(0, 9).Draw(t, "repeatAtoms") < 4 {
+		// the same atoms may occur several times (e.g. on both sides of a connective, grouped differently)
+		pool := rapid.IntRange(2, 3).Draw(t, "atomPool")
+		leaf := 0
+		var remap func(s *Skel)
+		remap = func(s *Skel) {
+			if s.Op == "atom" {
+				s.Atom = rapid.IntRange(0, pool-1).Draw(t, fmt.Sprintf("leaf%d", leaf))
+				leaf++
+			}
+			for _, k := range s.Kids {
+				remap(k)
+			}
+		}
+		remap(c.Skel)
+	}
 	c.Full = rapid.IntRange(0, 4).Draw(t, "full") == 0
 	if rapid.IntRange(0, 3).Draw(t, "respellWs") > 0 {
 		k := rapid.IntRange(2, 7).Draw(t, "nWs")
@@ -431,7 +457,7 @@ func TestC12(t *testing.T) {
 		ID:    "C12",
 		Level: "exploration",
 		Rule: "Exhaustive part: every and/or/not skeleton with 1..4 atoms (all binary shapes x all connective choices x all placements of 'not' on leaves and inner nodes), each rendered (i) with the minimal parentheses standard precedence requires, (ii) with every operand parenthesised, (iii) with one redundant layer around each child of the root; all 2^n truth assignments are compared with the skeleton's own value. " +
-			"Random part (rapid): skeletons with 2..8 atoms, redundant layers, whitespace runs of space/tab/CR/LF in every WS+/WS* slot, per-letter keyword case; a quarter also instantiate the atoms with real comparisons over a stored dataset and require QueryIds(re-spelling) == QueryIds(canonical) == the skeleton applied to the atoms' own answers. " +
+			"Random part (rapid): skeletons with 2..8 leaves (40% of them re-using 2-3 atoms in several places), redundant layers, whitespace runs of space/tab/CR/LF in every WS+/WS* slot, per-letter keyword case; a quarter also instantiate the atoms with real comparisons over a stored dataset and require QueryIds(re-spelling) == QueryIds(canonical) == the skeleton applied to the atoms' own answers. " +
 			"Non-trivial: and/or mixed without separating parentheses, or a 'not', or a re-spelling. Distinct by hash of the case JSON.",
 		Assumptions: []string{
 			"'not' is always written not (P) and parenthesised when it is an operand of a connective: how a bare not binds against and/or is not stated by the property",
